@@ -188,8 +188,9 @@ def showConcNew (w : World) (n : Nat) (evs : List KEv) (rets : List String) : Wo
   match nfileOf w.file with
   | none => (w, "UNSUPPORTED-START-STATE")
   | some f0 =>
-  let s0 : NSt := { ninit with file := f0, ring := ringOfWorld w.ring }
-  -- the creator is the thread that performs a second keyring operation (if any)
+  let s0 : NSt := { file := f0, k := Keyring.init (ringOfWorld w.ring), pc := fun _ => .pre }
+  -- the creator is the thread that performs a second keyring operation (if any); with a key already
+  -- in the keyring creator and followers are indistinguishable (one read each) and behave alike
   let counts := fun (t : Nat) => (evs.filter (·.t == t)).length
   let creator := (List.range n).map (· + 1) |>.find? (fun t => counts t ≥ 2)
   let s1 := match creator with
@@ -201,41 +202,40 @@ def showConcNew (w : World) (n : Nat) (evs : List KEv) (rets : List String) : Wo
     let s := if s.pc e.t == NPc.pre then nstep s e.t 0 else s
     match e.op with
     | "get" =>
-      let (s, blocked) := match s.pc e.t with
-        | .kr .wantLock => let s' := nstep s e.t 0; (s', s'.pc e.t == NPc.kr .wantLock)
-        | _ => (s, false)
+      let (s, blocked) :=
+        if s.pc e.t == NPc.kr && s.k.pc e.t == Pc.wantLock then
+          let s' := nstep s e.t 0
+          (s', s'.k.pc e.t == Pc.wantLock)
+        else (s, false)
       if blocked then (s, outs ++ [s!"{e.t}.get.LOCK-HELD-BY-ANOTHER"], stored) else
-      match s.pc e.t with
-      | .kr .start | .kr .locked | .chk =>
-        let pred := match s.ring with
-          | some k => showKey k
-          | none => "none"
-        let s' := nstep s e.t 0
-        -- a follower that saw no key probes the file at once (unless the observation says otherwise);
-        -- a creator that read the key opens at once
-        let s'' := match s'.pc e.t with
-          | .probe => if deferred e.t then s' else nstep s' e.t 0
-          | _ => s'
-        (s'', outs ++ [s!"{e.t}.get.{pred}"], stored)
-      | _ => (s, outs ++ [s!"{e.t}.get.UNEXPECTED"], stored)
+      let readable := (s.pc e.t == NPc.kr && (s.k.pc e.t == Pc.start || s.k.pc e.t == Pc.locked)) || s.pc e.t == NPc.chk
+      if !readable then (s, outs ++ [s!"{e.t}.get.UNEXPECTED"], stored) else
+      let pred := match s.k.ring with
+        | some k => showKey k
+        | none => "none"
+      let s' := nstep s e.t 0
+      -- a follower that saw no key probes the file at once (unless the observation says otherwise)
+      let s'' := if s'.pc e.t == NPc.probe && !deferred e.t then nstep s' e.t 0 else s'
+      (s'', outs ++ [s!"{e.t}.get.{pred}"], stored)
     | "set" =>
-      match s.pc e.t, parseKeyTok e.val with
-      | .kr .gen, some k =>
-        let s1 := nstep s e.t k
-        let s2 := nstep s1 e.t k
-        let s3 := nstep s2 e.t k       -- the creator opens (writes the header) right after storing
-        (s3, outs ++ [s!"{e.t}.set.{showKey k}"], stored ++ [k])
-      | _, _ => (s, outs ++ [s!"{e.t}.set.UNEXPECTED"], stored)
+      match parseKeyTok e.val with
+      | some k =>
+        if s.pc e.t == NPc.kr && s.k.pc e.t == Pc.gen then
+          -- generate() = k; set_secret; return; the creator opens (writes the header) right after
+          let s4 := nstep (nstep (nstep (nstep s e.t k) e.t k) e.t k) e.t k
+          (s4, outs ++ [s!"{e.t}.set.{showKey k}"], stored ++ [k])
+        else (s, outs ++ [s!"{e.t}.set.UNEXPECTED"], stored)
+      | none => (s, outs ++ [s!"{e.t}.set.UNEXPECTED"], stored)
     | _ => (s, outs ++ ["BAD-EVENT"], stored)) (s1, [], [])
-  -- remaining invisible steps: threads that never touched the keyring do not exist in `new`; finish
-  -- every thread (each needs at most 3 more steps)
+  -- remaining invisible steps (return from get_or_create, open, deferred probes)
   let s3 := (List.range n).foldl (fun s i =>
     let t := i + 1
-    nstep (nstep (nstep (nstep s t 0) t 0) t 0) t 0) s2
+    nstep (nstep (nstep (nstep (nstep s t 0) t 0) t 0) t 0) t 0) s2
   let showE : NErr → String
     | .unencrypted => "err:UnencryptedDatabaseWithEncryption"
     | .keyMissing => "err:KeyringEntryMissing"
     | .wrongKey => "err:WrongEncryptionKey"
+    | .keyring => "err:Keyring"
   let retS := (List.range n).map fun i =>
     match s3.pc (i + 1) with
     | .ok k => showKey k
@@ -249,7 +249,7 @@ def showConcNew (w : World) (n : Nat) (evs : List KEv) (rets : List String) : Wo
     | .enc k, _ => .enc k 0
     | .empty, _ => .empty
     | .missing, _ => .missing
-  let ring' : RingSt := match s3.ring with
+  let ring' : RingSt := match s3.k.ring with
     | some k => .key k
     | none => w.ring
   let dir' := match w.dir with
@@ -258,9 +258,9 @@ def showConcNew (w : World) (n : Nat) (evs : List KEv) (rets : List String) : Wo
   let fmode' := match w.file with
     | .missing => mode600
     | _ => if returned.isEmpty then w.fmode else mode600
-  let w' := { w with file := file', ring := ring', stores := w.stores + s3.stores, dir := dir', fmode := fmode' }
+  let w' := { w with file := file', ring := ring', stores := w.stores + s3.k.stores, dir := dir', fmode := fmode' }
   let evs := if outs.isEmpty then "-" else ";".intercalate outs
-  (w', s!"ev={evs} ret={",".intercalate retS} stores={s3.stores} distinct_stored={(dedup stored).length} distinct_returned={returned.length} usable=1 file={showFile file'} ring={showRing ring'}")
+  (w', s!"ev={evs} ret={",".intercalate retS} stores={s3.k.stores} distinct_stored={(dedup stored).length} distinct_returned={returned.length} usable=1 file={showFile file'} ring={showRing ring'}")
 
 def toks (line : String) : List String :=
   (line.trimAscii.toString.splitOn " ").filter (· ≠ "")
